@@ -28,10 +28,10 @@ open CB CB.Shift CB.Bits CB.Gen CB.Gen.Shifts
 syntax "shift_congr " num : tactic
 macro_rules | `(tactic| shift_congr $n) => do
   match n.getNat with
-  | 0 => `(tactic| first | with_reducible rfl | bv_decide)
+  | 0 => `(tactic| first | with_reducible rfl | bv_decide | (simp only [gen_defs] <;> (try simp only [BitVec.mul_comm]) <;> bv_decide) | bv_decide)
   | k + 1 =>
     let m := Lean.Syntax.mkNumLit (toString k)
-    `(tactic| first | with_reducible rfl | bv_decide | (with_reducible congr 1 <;> shift_congr $m) | bv_decide)
+    `(tactic| first | with_reducible rfl | bv_decide | (with_reducible congr 1 <;> shift_congr $m) | (simp only [gen_defs] <;> (try simp only [BitVec.mul_comm]) <;> bv_decide) | bv_decide)
 
 /-- closes what is left of a round lemma after the generated loop has been unfolded once -/
 macro "shift_round_eq" : tactic => `(tactic| ((try simp only [gen_defs]) <;> (try simp only [BitVec.mul_comm]) <;> shift_congr 6))
